@@ -1,17 +1,21 @@
 #!/bin/bash
-# apply every stored seed to /repo in turn, run the quick check of its property, undo; print which rule(s) fired.
-# usage: tools/all_seeds.sh        (expects /repo clean; exit 1 if any seed is not reported)
-cd /repo && git diff --quiet || { echo "/repo not clean"; exit 2; }
-miss=0
-for d in /verif/seeded/*/; do
-  id=$(basename "$d"); p=${id%-*}
-  git -C /repo apply "$d/patch.diff" 2>/dev/null || { echo "$id: patch does not apply (tree moved on)"; continue; }
-  out=$(cd /verif && VERIF_EVIDENCE_DIR=/tmp/seed-ev VERIF_OUT=/tmp/seed-out python3-vt check.py $p --tier quick 2>&1)
-  rc=$?
-  rules=$(echo "$out" | grep -oE "^\s+\[R[0-9a-z.]+\]" | tr -d ' []' | sort -u | tr '\n' ' ')
-  git -C /repo checkout -- .
-  [ $rc -eq 1 ] || miss=1
+# apply every stored seed to a scratch copy of /repo, run the quick check of its property against the copy
+# (VERIF_REPO), print which rule(s) fired; 8 seeds at a time.   exit 1 if any seed is not reported.
+# usage: tools/all_seeds.sh [ID ...]
+cd /verif
+ids="$@"; [ -z "$ids" ] && ids=$(ls seeded)
+run_one() {
+  id=$1; p=${id%-*}; d=/tmp/seedrun-$id
+  rm -rf $d; mkdir -p $d/repo
+  (cd /repo && git ls-files -z | xargs -0 cp --parents -t $d/repo) 2>/dev/null
+  (cd $d/repo && patch -p1 -s < /verif/seeded/$id/patch.diff) || { echo "$id: patch does not apply"; rm -rf $d; return; }
+  out=$(cd /verif && VERIF_REPO=$d/repo VERIF_EVIDENCE_DIR=$d/ev VERIF_OUT=$d/out python3-vt check.py $p --tier quick 2>&1); rc=$?
+  rules=$(echo "$out" | grep -oE "^\s+\[R[0-9a-zA-Z.]+\]" | tr -d ' []' | sort -u | tr '\n' ' ')
   echo "$id exit=$rc rules: $rules"
-done
-rm -rf /tmp/seed-ev /tmp/seed-out
-exit $miss
+  rm -rf $d
+}
+export -f run_one
+printf "%s\n" $ids | xargs -P 8 -I{} bash -c 'run_one {}' | sort > /tmp/all_seeds.out
+cat /tmp/all_seeds.out
+if grep -qv "exit=1 " /tmp/all_seeds.out; then exit 1; fi
+exit 0
